@@ -77,6 +77,23 @@ Definition c09_restore_free (tr : trace) : bool :=
 
 Definition c09_restore_at (tr : trace) : option nat := first_reject rf_step [] tr 0.
 
+(** "After deployment every target keeps being probed": a target whose probe loop has been stopped receives a request only
+    when its balancer has been disposed of (then the claim is the recorded finding D2's business, not a live target).
+    State: (target -> balancer, disposed balancers, targets whose loop was stopped). *)
+Definition up_step (st : list (nat * nat) * list nat * list nat) (e : event)
+  : option (list (nat * nat) * list nat * list nat) :=
+  let '(tl, disp, stopped) := st in
+  match e_k e with
+  | KLbNew lb ts => Some (fold_left (fun acc t => nset acc t lb) ts tl, disp, stopped)
+  | KLbDispose lb => Some (tl, lb :: disp, stopped)
+  | KProbeStop t => Some (tl, disp, t :: stopped)
+  | KClaim t _ =>
+    if nmem t stopped && negb (match nget tl t with Some lb => nmem lb disp | None => true end) then None else Some st
+  | _ => Some st
+  end.
+
+Definition c09_unprobed_claim_at (tr : trace) : option nat := first_reject up_step ([], [], []) tr 0.
+
 (** ** Probe cadence (monitor only) *)
 
 Record cad := mkCad { c_last : list (nat * N); c_dead : list nat }.
